@@ -41,10 +41,13 @@
        `bad_sound`           judgeElem f x r ne = .bad msg → Violation f x r ne         (every x, r, ne)
        `ok_sound`            `.ok` on the enclosure path ⇒ right sign ∧ |r − f(x)| ≤ 10^eT + enclosure width
        `ulp_le_unit`         the unit `10^eT` of the `.ok` bound is the spacing at the upper end of the enclosure
-       `exp_width`, `exp_ok_close`, `log_bracket_width`   proved widths: `.ok` for Exp ⇒ |r − exp x| ≤ 10^eT + 3·10^-39·exp x
+       `exp_width`, `log_bracket_width`, `trueValue_width`   proved widths of the enclosures
+       `exp_ok_close`, `log_ok_close`, `log1p_ok_close`      `.ok` ⇒ |r − f(x)| ≤ (1+δ)·10^eT, δ = 4·10^-5, 2·10^-2, 10^-3
+  7. what the oracle cannot decide
+       `undecided_cases`, `exp_always_decided`, `log_undecided_iff`
 -/
 import D128.Proofs.EnclosureExact
-import D128.Proofs.EnclosureWidthOk
+import D128.Proofs.EnclosureUndecided
 set_option autoImplicit false
 
 namespace Props.C16
@@ -191,32 +194,114 @@ theorem ok_sound (f : Fn) (n : Bool) (c : Nat) (e : Int) (ne : Bool) (tn : Bool)
     GeneralOk (realFn f (X n c e)) t r :=
   general_ok_sound f n c e ne tn t r hspec hexact hhuge htv hc h
 
-/-! ### proved widths -/
+/-! ### proved widths: `.ok` means "within (1+δ) units in the last place" -/
 
 /-- the enclosure of `exp x` on the arguments the checks use (|x| ≤ 10^7) has relative width ≤ 10^-66 -/
 theorem exp_width {x : ℚ} {s : Sci} (h : Encl.exp x = some s) (hx : |x| ≤ 10 ^ 7) :
     0 < s.m.lo ∧ s.m.hi ≤ s.m.lo * (1 + 1 / 10 ^ 66) := exp_ratio h hx
 
-/-- hence an `.ok` verdict for `Exp` on a finite non-zero result is the one-ulp claim up to 3·10^-39 relative
-    (3·10^-39 is the width of the shortcut enclosure for |x| < 10^-40; `10^eT` is the spacing of the format at
-    the upper end of the enclosure of `exp x`) -/
-theorem exp_ok_close (n : Bool) (c : Nat) (e : Int) (ne : Bool) (tn : Bool) (t : Sci)
-    (rn : Bool) (rc : Nat) (re : Int)
-    (hspec : specialCase .exp (.fin n c e) = none)
-    (hexact : (if ne then exactCase .exp n c e else none) = none)
-    (hhuge : hugeArg .exp c e = false)
-    (htv : trueValue .exp n c e = some (tn, t)) (hc : c < 10 ^ 35)
-    (h : judgeElem .exp (.fin n c e) (.fin rn (rc + 1) re) ne = .ok) :
-    rn = false ∧
-    |X rn (rc + 1) re - Real.exp (X n c e)| ≤ (10 : ℝ) ^ (eT t) + 3 / 10 ^ 39 * Real.exp (X n c e) :=
-  EnclPf.exp_ok_close n c e ne tn t rn rc re hspec hexact hhuge htv hc h
-
-/-- the bracket of the certified logarithm has half-width `max(1, |mid|)·10^-60`: it is narrower than one unit in
-    the last place of the logarithm only for `|ln| ≳ 2·10^-26`; nearer to zero an `.ok` verdict of Log/Log2/Log10
-    is weaker than the one-ulp claim (a `.bad` verdict is a true violation everywhere) -/
+/-- the bracket of the certified logarithm has half-width `max(|mid|·10^-60, 10^-72)`; the unit in the last
+    place of the logarithm of a Decimal x ≠ 1 exceeds 3.8·10^-70 (`log_abs_ge`: |ln x| ≥ 5·10^-36) -/
 theorem log_bracket_width {q : ℚ} {k : Int} {l : I} (h : Encl.log q k = some l) :
     l.hi - l.lo =
-      2 * ((if |(l.lo + l.hi) / 2| < 1 then 1 else |(l.lo + l.hi) / 2|) * pow10 (-60)) := log_width h
+      2 * (if |(l.lo + l.hi) / 2| * pow10 (-60) < pow10 (-72) then pow10 (-72)
+           else |(l.lo + l.hi) / 2| * pow10 (-60)) := log_width h
+
+/-- every enclosure `trueValue` returns is narrow: relative width ≤ 3·10^-39, plus (logarithms only) an absolute
+    slack of at most 6·10^-72 resp. 2·10^-38 (Log1p of x > 10^40) in units of `10^t.k` -/
+theorem trueValue_width (f : Fn) (n : Bool) (c : Nat) (e : Int) (tn : Bool) (t : Sci)
+    (hc0 : c ≠ 0) (hc : c < 10 ^ 35) (h : trueValue f n c e = some (tn, t)) :
+    0 < t.m.lo ∧ t.m.lo ≤ t.m.hi ∧ t.m.hi ≤ t.m.lo * (1 + 3 / 10 ^ 39) + 2 / 10 ^ 38 := by
+  have key : ∀ {ρ α : ℚ}, Narrow t.m ρ α → ρ ≤ 3 / 10 ^ 39 → α ≤ 2 / 10 ^ 38 →
+      0 < t.m.lo ∧ t.m.lo ≤ t.m.hi ∧ t.m.hi ≤ t.m.lo * (1 + 3 / 10 ^ 39) + 2 / 10 ^ 38 :=
+    fun hN h1 h2 => narrow_mono hN h1 h2
+  cases f
+  · exact key (trueValue_exp_narrow n c e tn t hc0 hc h) (le_refl _) (by norm_num)
+  · exact key (trueValue_exp2_narrow n c e tn t hc0 hc h) (le_refl _) (by norm_num)
+  · exact key (trueValue_exp10_narrow n c e tn t hc0 hc h) (le_refl _) (by norm_num)
+  · exact key (trueValue_expm1_narrow n c e tn t hc0 hc h) (le_refl _) (by norm_num)
+  · exact key (trueValue_log_narrow n c e tn t h) (by norm_num) (by norm_num)
+  · exact key (trueValue_log2_narrow n c e tn t h) (by norm_num) (by norm_num)
+  · exact key (trueValue_log10_narrow n c e tn t h) (by norm_num) (by norm_num)
+  · exact key (trueValue_log1p_narrow n c e tn t hc0 hc h) (le_refl _) (by split <;> [norm_num; (split <;> norm_num)])
+  · exact absurd h (by simp [trueValue])
+  · exact absurd h (by simp [trueValue])
+
+section
+variable (f : Fn) (n : Bool) (c : Nat) (e : Int) (ne : Bool) (tn : Bool) (t : Sci)
+variable (rn : Bool) (rc : Nat) (re : Int)
+
+/-- **Exp, Exp2, Exp10, Expm1**: `.ok` on a finite non-zero result ⇒ right sign and
+    `|r − f(x)| ≤ (1 + 4·10^-5)·10^eT` (`10^eT`: unit in the last place at the upper end of the enclosure) -/
+theorem exp_ok_close (hf : f = .exp ∨ f = .exp2 ∨ f = .exp10 ∨ f = .expm1)
+    (hspec : specialCase f (.fin n c e) = none)
+    (hexact : (if ne then exactCase f n c e else none) = none)
+    (hhuge : hugeArg f c e = false)
+    (htv : trueValue f n c e = some (tn, t)) (hc : c < 10 ^ 35)
+    (h : judgeElem f (.fin n c e) (.fin rn (rc + 1) re) ne = .ok) :
+    (rn = true ↔ realFn f (X n c e) < 0) ∧
+    |X rn (rc + 1) re - realFn f (X n c e)| ≤ (1 + 4 / 10 ^ 5) * (10 : ℝ) ^ (eT t) :=
+  expfam_ok_close f n c e ne tn t rn rc re hf hspec hexact hhuge htv hc h
+
+/-- **Log, Log2, Log10**: `.ok` on a finite non-zero result ⇒ right sign and `|r − f(x)| ≤ (1 + 2·10^-2)·10^eT`
+    (the 2 % come from the absolute floor 10^-72 of the certified bracket against the smallest possible unit
+    3.8·10^-70 of a logarithm of a Decimal; for |ln x| ≥ 10^-30 the excess is below 10^-6) -/
+theorem log_ok_close (hf : f = .log ∨ f = .log2 ∨ f = .log10)
+    (hspec : specialCase f (.fin n c e) = none)
+    (hexact : (if ne then exactCase f n c e else none) = none)
+    (hhuge : hugeArg f c e = false)
+    (htv : trueValue f n c e = some (tn, t)) (hc : c < 10 ^ 35)
+    (h : judgeElem f (.fin n c e) (.fin rn (rc + 1) re) ne = .ok) :
+    (rn = true ↔ realFn f (X n c e) < 0) ∧
+    |X rn (rc + 1) re - realFn f (X n c e)| ≤ (1 + 2 / 10 ^ 2) * (10 : ℝ) ^ (eT t) :=
+  logfam_ok_close f n c e ne tn t rn rc re hf hspec hexact hhuge htv hc h
+
+/-- **Log1p**: `.ok` on a finite non-zero result ⇒ right sign and `|r − ln(1+x)| ≤ (1 + 10^-3)·10^eT` -/
+theorem log1p_ok_close
+    (hspec : specialCase .log1p (.fin n c e) = none)
+    (hexact : (if ne then exactCase .log1p n c e else none) = none)
+    (hhuge : hugeArg .log1p c e = false)
+    (htv : trueValue .log1p n c e = some (tn, t)) (hc : c < 10 ^ 35)
+    (h : judgeElem .log1p (.fin n c e) (.fin rn (rc + 1) re) ne = .ok) :
+    (rn = true ↔ realFn .log1p (X n c e) < 0) ∧
+    |X rn (rc + 1) re - realFn .log1p (X n c e)| ≤ (1 + 1 / 10 ^ 3) * (10 : ℝ) ^ (eT t) :=
+  EnclPf.log1p_ok_close n c e ne tn t rn rc re hspec hexact hhuge htv hc h
+
+end
+
+/-! ## 7. what the oracle cannot decide -/
+
+/-- `judgeElem` answers `.undecided` only for a finite, non-special operand that is neither an exact case (under
+    the default mode) nor a huge argument of the exp family, and only because `trueValue` has no enclosure.
+    In particular `withinUlps` never answers "enclosure not positive" (every enclosure is positive). -/
+theorem undecided_cases (f : Fn) (x r : Val) (ne : Bool) (w : String)
+    (hx : ∀ n c e, x = .fin n c e → c < 10 ^ 35)
+    (h : judgeElem f x r ne = .undecided w) :
+    ∃ n c e, x = .fin n c e ∧ specialCase f x = none ∧ (if ne then exactCase f n c e else none) = none ∧
+      hugeArg f c e = false ∧ trueValue f n c e = none :=
+  judgeElem_undecided f x r ne w hx h
+
+/-- Exp, Exp2 and Exp10 are decided for every operand and every result -/
+theorem exp_always_decided (f : Fn) (hf : f = .exp ∨ f = .exp2 ∨ f = .exp10) (x r : Val) (ne : Bool)
+    (w : String) (hx : ∀ n c e, x = .fin n c e → c < 10 ^ 35) :
+    judgeElem f x r ne ≠ .undecided w :=
+  judgeElem_decided_exp f hf x r ne w hx
+
+/-- Log, Log2, Log10 have no enclosure exactly when the certificate of the logarithm fails (`Encl.log = none`;
+    it did not on any of 281 probe arguments, but this depends on a `Float` seed and is not provable) or the
+    bracket contains 0 (x = 1 under a non-default mode).  Expm1: only if its enclosure contains 0
+    (`trueValue_expm1_isSome_or`); Log1p: as Log for |x| ≥ 10^-12; Sqrt and Cbrt are judged by `judgeRoot`, so
+    `judgeElem` always answers `.undecided` for them. -/
+theorem log_undecided_iff (n : Bool) (c : Nat) (e : Int) :
+    (trueValue .log n c e = none ↔
+      Encl.log (c : ℚ) e = none ∨ ∃ l, Encl.log (c : ℚ) e = some l ∧ l.lo ≤ 0 ∧ 0 ≤ l.hi) ∧
+    (trueValue .log2 n c e = none ↔
+      Encl.log (c : ℚ) e = none ∨ ∃ l, Encl.log (c : ℚ) e = some l ∧
+        (l.mul ln2.invPos).lo ≤ 0 ∧ 0 ≤ (l.mul ln2.invPos).hi) ∧
+    (trueValue .log10 n c e = none ↔
+      Encl.log (c : ℚ) e = none ∨ ∃ l, Encl.log (c : ℚ) e = some l ∧
+        (l.mul ln10.invPos).lo ≤ 0 ∧ 0 ≤ (l.mul ln10.invPos).hi) :=
+  trueValue_none_log n c e
 
 /-- the side conditions of the enclosure path are satisfiable: Exp(−123.45), any rounding-mode flag -/
 example (ne : Bool) :
